@@ -160,6 +160,35 @@ Definition format_str (fmt : str) (args : list str) : res := str_loop fmt args (
 (* formatter::str() const;  operator string_type() and operator<< both return / write str() *)
 Definition str_of (f : formatter) : res := format_str (format_ f) (args_ f).
 
+(* ---------- operator<<(std::ostream& s, const formatter& f):  return s << f.str(); ----------
+   The caller's stream, as far as inserting a string is concerned: what has been written so far and the
+   pending field width, fill character and adjustment (left, or right/internal/none which are the same
+   for a string).  Inserting a std::string (libstdc++ __ostream_insert) pads it to the pending width and
+   resets the width to 0; fill and adjustment stay. *)
+Record ostream := { content : str; width : nat; fill : byte; adjust_left : bool }.
+
+Definition pad (w : nat) (c : byte) (left : bool) (text : str) : str :=
+  let n := w - length text in
+  if left then text ++ repeat c n else repeat c n ++ text.
+
+Definition insert_str (o : ostream) (text : str) : ostream :=
+  {| content := content o ++ pad (width o) (fill o) (adjust_left o) text;
+     width := 0; fill := fill o; adjust_left := adjust_left o |}.
+
+(* f.str() is evaluated first; when it raises, the exception leaves operator<< before anything has been
+   inserted: the stream is as it was (pending width included).  Otherwise the whole text goes in as ONE
+   item. *)
+Definition stream_out (o : ostream) (f : formatter) : ostream * option err :=
+  match str_of f with
+  | Ok text => (insert_str o text, None)
+  | Raise e => (o, Some e)
+  end.
+
+(* what the driver does with a stream: os << f (catching the exception), then os << sentinel *)
+Definition stream_then (o : ostream) (fmt : str) (ops_ : formatter -> formatter) (sentinel : str) : str * bool :=
+  let r := stream_out o (ops_ (mk fmt)) in
+  (content (insert_str (fst r) sentinel), match snd r with None => true | Some _ => false end).
+
 (* a use of the public interface: a chain of  % arg  and  .args(a, b, ...)  calls on one formatter *)
 Inductive op := Pct (a : arg) | Args (l : list arg).
 Definition apply_op (f : formatter) (o : op) : formatter :=
@@ -168,6 +197,11 @@ Definition apply_ops (f : formatter) (ops : list op) : formatter := fold_left ap
 
 (* nitro::format(fmt) followed by the chain, then str() *)
 Definition format_chain (fmt : str) (ops : list op) : res := str_of (apply_ops (mk fmt) ops).
+
+(* the same chain streamed with operator<< into the caller's stream o, followed by a sentinel item;
+   result: everything the stream holds afterwards, and whether operator<< returned (true) or raised *)
+Definition stream_chain (o : ostream) (fmt : str) (ops : list op) (sentinel : str) : str * bool :=
+  stream_then o fmt (fun f => apply_ops f ops) sentinel.
 
 (* several formatter objects used one after the other on the same thread: the class has no static or
    thread-local member and operator% builds its stream locally, so no state is carried from one
